@@ -745,7 +745,7 @@ func (fx *Fx) spawnPre(st *State, fn *types.Func, recv *Val, args []Val, call *a
 		specPos = fi.Body.Lbrace
 	}
 	for k, r := range sp.Requires {
-		if strings.Contains(r.Text, "held(") {
+		if strings.Contains(r.Text, "held(") || r.Kind == "assumes" {
 			continue
 		}
 		env := &SpecEnv{fx: fx, st: st, old: st, bound: bound, pos: specPos, pkg: fx.w.Pkgs[sp.PkgPath]}
@@ -784,6 +784,9 @@ func (fx *Fx) applyCall(st *State, fn *types.Func, recv *Val, args []Val, call *
 	calleePkg := fx.w.Pkgs[sp.PkgPath]
 	// requires
 	for k, r := range sp.Requires {
+		if r.Kind == "assumes" {
+			continue
+		}
 		env := &SpecEnv{fx: fx, st: st, old: st, bound: bound, pos: specPos, pkg: calleePkg}
 		phi := fx.specBool(env, r.Expr)
 		class := "pre"
